@@ -97,6 +97,10 @@ def check_own(run, db, fns=None, rule='R-OWN'):
                                 % (changes[0][0][:80], ' & '.join(s.cond_key()) or 'unconditional'))
             if ret == 'true' and not own_true:
                 problems.append('returns true on a path without a positive ownership test (%s)' % (' & '.join(s.cond_key()) or 'unconditional'))
+            if own_true and ret == 'false':
+                probs_after = [c for c, tk in s.conds if not _is_own_test(c)]
+                problems.append('refuses (returns false) although the pointer passed the ownership test%s: memory the allocator handed out is not taken back'
+                                % ((' - because of `%s`' % probs_after[-1][:70]) if probs_after else ''))
             if own_false and ret != 'false':
                 problems.append('ownership test failed but the function returns %s' % ret)
             if own_false and changes:
